@@ -712,6 +712,28 @@ pub fn boundary_cases(seed: u64) -> Vec<Case> {
     out
 }
 
+/// gzip files within the 160 KiB input bound that unpack to far more (deflate reaches ~1000:1)
+pub fn ratio_cases() -> Vec<Case> {
+    use flate2::{write::GzEncoder, Compression};
+    use std::io::Write;
+    let mut out = Vec::new();
+    for (n, fill) in [(1usize << 20, 0u8), (8 << 20, 0), ((8 << 20) + 1, 0), (17 << 20, 0xFF), (64 << 20, 0), (120 << 20, 0x55)] {
+        let mut e = GzEncoder::new(Vec::new(), Compression::default());
+        let chunk = vec![fill; 1 << 20];
+        let mut left = n;
+        while left > 0 {
+            let k = left.min(chunk.len());
+            e.write_all(&chunk[..k]).unwrap();
+            left -= k;
+        }
+        let data = e.finish().unwrap();
+        if data.len() <= 160 * 1024 {
+            out.push(Case { target: Target::Gzip, machine: Machine::K48, data, fault: None, cursor: false });
+        }
+    }
+    out
+}
+
 // ---------------------------------------------------------------------------------------
 
 pub fn excl_from_known() -> Excl {
@@ -790,6 +812,7 @@ pub fn run(run: &mut Run) {
     run.enumerate("corpus", corpus, true, |c: &Case, r: &mut Rec| check_with(c, r, e1));
     let faults = fault_cases(run.seed, t.pick(4, 24));
     run.enumerate("fault-enumeration", faults, true, |c: &Case, r: &mut Rec| check_with(c, r, e1));
+    run.enumerate("gzip-unpack-ratio", ratio_cases(), true, |c: &Case, r: &mut Rec| check_with(c, r, e1));
     let bounds = boundary_cases(run.seed);
     run.enumerate("length-boundaries", bounds, true, |c: &Case, r: &mut Rec| check_with(c, r, e1));
     run.explore("mutated-valid-files", t.pick(12_000, 600_000), mutated_strategy, |c, r| check_with(c, r, e1));
@@ -820,7 +843,7 @@ pub fn replay(run: &mut Run, phase: &str, case: &serde_json::Value) -> Result<()
 }
 
 pub const LEVEL: &str = "fault_enumeration";
-pub const RULE: &str = "targets: load_snapshot(SNA|SZX), load_screen(SCR), load_tape(TAP) followed by a ROM fast-load request, rewind and 32 frames of real-time playing, load_rom, GzipAsset::new, Vtx::load followed by playing; both machines; 3 frames of emulation after every outcome. Inputs: (1) committed corpus (repository assets and earlier failures); (2) fault enumeration: for valid files of every format a fault (error, 1-byte / 7-byte short read, premature end-of-data; one-shot or sticky) at EVERY read/seek call index the successful load performs; (2b) length boundaries: valid files of every format cut or padded (0x00 / 0xA5) to every length within a few bytes of each structural boundary (SNA: header, every bank end, 49179, 49183, 131103, 147487; SZX/TAP: every chunk/block header and body end; SCR 6144/6912; ROM 16384/32768; gzip/VTX headers and trailers), offered to both machines; (3) valid files from the harness' writers with 0..4 field/structure mutations (byte set, 32-bit set incl. 0/1/0xFFFF/0xFFFFFFFF/16383/16385, truncation, append, remove, splice; half of the positions in the first 512 bytes); (4) explicit SZX chunk lists with adversarial ids (non-UTF-8), sizes (0, 1, 2^32-1, ...) and body lengths (0..40, short RAMP pages); (5) VTX headers with adversarial sizes, player frequency 0, missing string terminators; (6) uniform bytes up to 160 KiB with and without magic. Monitor: catch_unwind with overflow checks and debug assertions enabled in all crates (profile `checked`), a counting allocator flagging any single request above max(16 MiB, 64 x input), deterministic loop detection (asset asked to read again after 100000 zero-length results). non-trivial = input passes the format's first size/magic validation as judged by the harness; distinct = hash of (bytes, target, machine, fault)";
+pub const RULE: &str = "targets: load_snapshot(SNA|SZX), load_screen(SCR), load_tape(TAP) followed by a ROM fast-load request, rewind and 32 frames of real-time playing, load_rom, GzipAsset::new, Vtx::load followed by playing; both machines; 3 frames of emulation after every outcome. Inputs: (1) committed corpus (repository assets and earlier failures); (2) fault enumeration: for valid files of every format a fault (error, 1-byte / 7-byte short read, premature end-of-data; one-shot or sticky) at EVERY read/seek call index the successful load performs; (2b) length boundaries: valid files of every format cut or padded (0x00 / 0xA5) to every length within a few bytes of each structural boundary (SNA: header, every bank end, 49179, 49183, 131103, 147487; SZX/TAP: every chunk/block header and body end; SCR 6144/6912; ROM 16384/32768; gzip/VTX headers and trailers), offered to both machines; (2c) gzip files of at most 160 KiB that unpack to 1..120 MiB; (3) valid files from the harness' writers with 0..4 field/structure mutations (byte set, 32-bit set incl. 0/1/0xFFFF/0xFFFFFFFF/16383/16385, truncation, append, remove, splice; half of the positions in the first 512 bytes); (4) explicit SZX chunk lists with adversarial ids (non-UTF-8), sizes (0, 1, 2^32-1, ...) and body lengths (0..40, short RAMP pages); (5) VTX headers with adversarial sizes, player frequency 0, missing string terminators; (6) uniform bytes up to 160 KiB with and without magic. Monitor: catch_unwind with overflow checks and debug assertions enabled in all crates (profile `checked`), a counting allocator flagging any single request above max(16 MiB, 64 x input), deterministic loop detection (asset asked to read again after 100000 zero-length results). non-trivial = input passes the format's first size/magic validation as judged by the harness; distinct = hash of (bytes, target, machine, fault)";
 pub const ASSUMPTIONS: &[&str] = &[
     "Ok and Err are both clean outcomes; an Err from emulate_frames after a failed tape load is clean too",
     "non-termination is detected by a deterministic work counter in the asset, not by wall clock",
